@@ -147,7 +147,7 @@ theorem unpackBlocks_total (env : Env) (hC : CryptoTotal env.C) (ext : List Encr
       · exact ih _ _ _ _ hr3
 
 theorem readBinary_total (env : Env) (hC : CryptoTotal env.C) (ext : List Encryptor) (hE : EccTotal env.E ext)
-    (chk : Bool) (bin : Bytes) : Total (readBinary env ext chk bin) := by
+    (chk : Bool) (bin : Bytes) (ρ : Bytes := []) : Total (readBinary env ext chk bin ρ) := by
   unfold readBinary
   refine Errs.bind (take_total _ _) ?_
   rintro ⟨sig, r⟩ _
